@@ -57,7 +57,7 @@ def app_callbacks(rp, tm, extra, seen):
     return keep
 
 
-def run_history(rp, tasks, batches, extra=None, pilot_dies=None):
+def run_history(rp, tasks, batches, extra=None, pilot_dies=None, waits=None):
     """real TaskManager._update_tasks on real Task objects; with `pilot_dies` (a final pilot state) all tasks are bound
     to one pilot which ends in that state after the last batch (real TaskManager._pilot_state_cb)"""
     tm  = stubs.make_tmgr(rp)
@@ -70,7 +70,13 @@ def run_history(rp, tasks, batches, extra=None, pilot_dies=None):
     seen = []
     keep = app_callbacks(rp, tm, copy.deepcopy(extra), seen)
     errs = []
-    for b in batches:
+    for bi, b in enumerate(batches):
+        # `waits`: before batch bi the application waits (briefly) for a task to reach a state - Task.wait with a
+        # non-final state is an ordinary API call and changes nothing about how notifications are handled
+        for at, uid, st in (waits or []):
+            if at == bi:
+                try: tm._tasks['task.%06d' % uid].wait(state=st, timeout=0.001)
+                except Exception as e: errs.append('wait:' + exc_name(e))
         dicts = [{'uid': 'task.%06d' % u['uid'], 'state': u['state'], 'type': 'task'}
                  for u in b]
         try:
@@ -243,6 +249,19 @@ def run(ctx):
                          % (extra, res3['cbs'], errs3, res['cbs']),
                          {'tasks': tasks, 'batches': batches, 'extra': extra}, observed=res3, expected=res)
                 continue
+        # the application waiting for states in between changes nothing
+        if batches and kinds.get('with_waits', 0) < ctx.n(25, 300) and ctx.rng.random() < 0.3:
+            nf = [s_ for s_ in states_of(rp) if s_ not in rp.states.FINAL and s_ != 'NEW']
+            waits = [(ctx.rng.randrange(len(batches)), ctx.rng.choice(tasks)['uid'], ctx.rng.choice([ctx.rng.choice(nf), [ctx.rng.choice(nf)], 'DONE']))
+                     for _ in range(ctx.rng.randint(1, 2))]
+            res5, errs5 = run_history(rp, tasks, batches, waits=waits)
+            kinds['with_waits'] = kinds.get('with_waits', 0) + 1
+            if res5 != res or errs5 != errs:
+                ctx.fail('waiting-for-a-state-changes-how-notifications-are-handled',
+                         'with the application calling Task.wait %s between the batches the tasks end %s with callbacks %s (%s); without: %s, %s'
+                         % (waits, [t['state'] for t in res5['tasks']], res5['cbs'], errs5, [t['state'] for t in res['tasks']], res['cbs']),
+                         {'tasks': tasks, 'batches': batches, 'waits': waits}, observed=res5, expected=res)
+                continue
         # once final, always that final state - also when the pilot of the task ends afterwards (the task manager
         # then fails what is left of that pilot's tasks through Task._update, not through a notification)
         if ctx.rng.random() < 0.35:
@@ -306,6 +325,10 @@ def replay(ctx, data):
         FINAL = rp.states.FINAL
         print('after the pilot ended %s:' % inp['pilot_dies'], res4['after_pilot_end'], errs4)
         return not errs4 and all(a == (t['state'] if t['state'] in FINAL else 'FAILED') for t, a in zip(res4['tasks'], res4['after_pilot_end']))
+    if not bad and 'waits' in inp:
+        res5, errs5 = run_history(rp, inp['tasks'], inp['batches'], waits=[tuple(w) for w in inp['waits']])
+        print('with waits %s:' % inp['waits'], res5, errs5)
+        return res5 == res and errs5 == errs
     if not bad and 'extra' in inp:
         res3, errs3 = run_history(rp, inp['tasks'], inp['batches'], inp['extra'])
         print('with application callbacks %s:' % inp['extra'], res3, errs3)
